@@ -419,7 +419,7 @@ pub fn check_cmd(check: &'static dyn Check, thorough: bool) -> i32 {
     let vs = verif_seed();
     let known = load_known();
     let n = check.n_runs(thorough);
-    let nw: u64 = if check.one_per_process() { 16 } else { std::cmp::min(16, std::cmp::max(1, n / 4)) };
+    let nw: u64 = std::env::var("VERIF_WORKERS").ok().and_then(|s| s.parse::<u64>().ok()).filter(|w| *w >= 1).unwrap_or(if check.one_per_process() { 16 } else { std::cmp::min(16, std::cmp::max(1, n / 4)) });
     let mut agg = Agg {
         evaluations: 0,
         distinct: HashSet::new(),
@@ -575,6 +575,9 @@ pub fn check_cmd(check: &'static dyn Check, thorough: bool) -> i32 {
         }
     }
 
+    if let Ok(path) = std::env::var("VERIF_DUMP_HASHES") {
+        let _ = std::fs::write(path, serde_json::to_string(&agg.hashes).unwrap_or_default());
+    }
     let wall = t0.elapsed().as_secs_f64();
     // evidence
     let zero_probes: Vec<&String> = agg.probes.iter().filter(|(_, v)| **v == 0).map(|(k, _)| k).collect();
